@@ -227,10 +227,39 @@ impl<T: Clone> VersionChain<T> {
 @@EdgeId@@
 // E1 stand-ins: the records are opaque; LpgStore is reduced to the two maps the function touches (locks dropped, FxHashMap -> std HashMap)
 #[verifier::external_body] pub struct NodeRecord { _p: () }
-#[verifier::external_body] pub struct EdgeRecord { _p: () }
+// of EdgeRecord the fields the store-level getters read (E1: flags / property arena fields stay opaque behind `deleted()`)
+#[verifier::external_body] pub struct EdgeRest { _p: () }
+pub struct EdgeRecord { pub id: EdgeId, pub src: NodeId, pub dst: NodeId, pub type_id: u32, pub rest: EdgeRest }
+impl EdgeRecord {
+    pub uninterp spec fn deleted(&self) -> bool;
+    #[verifier::external_body] pub fn is_deleted(&self) -> (r: bool) ensures r == self.deleted() { unimplemented!() }
+}
+#[verifier::external_body] pub struct ArcStr { _p: () }
+impl Clone for ArcStr { #[verifier::external_body] fn clone(&self) -> (r: Self) ensures r == *self { unimplemented!() } }
+#[verifier::external_body] pub struct PropertyStorage { _p: () }
+#[verifier::external_body] pub struct PropertyMap { _p: () }
+#[verifier::external_body] fn collect_props(ps: &PropertyStorage, id: EdgeId) -> PropertyMap { unimplemented!() }
+/// grafeo_core::graph::lpg::Edge (the materialised edge handed to operators): the fields the contract talks about
+pub struct Edge { pub id: EdgeId, pub src: NodeId, pub dst: NodeId, pub edge_type: ArcStr, pub properties: PropertyMap }
+impl Edge {
+    #[verifier::external_body] pub fn new(id: EdgeId, src: NodeId, dst: NodeId, edge_type: ArcStr) -> (r: Edge)
+        ensures r.id == id && r.src == src && r.dst == dst && r.edge_type == edge_type { unimplemented!() }
+}
+/// WHAT A READER MAY SEE OF AN EDGE (C01): the edge exists for reader (e, t) iff its chain has a version the reader may see and the newest such
+/// version is not a deletion (and its type id is in the type table); the endpoints handed out are those of exactly that version
+pub open spec fn edge_seen(edges: Map<EdgeId, VersionChain<EdgeRecord>>, types: Seq<ArcStr>, id: EdgeId, k: int, r: Option<Edge>) -> bool {
+    match r {
+        Some(e) => edges.contains_key(id) && 0 <= k < edges[id].versions@.len() && !edges[id].versions@[k].data.deleted()
+            && e.id == id && e.src == edges[id].versions@[k].data.src && e.dst == edges[id].versions@[k].data.dst
+            && edges[id].versions@[k].data.type_id < types.len() && e.edge_type == types[edges[id].versions@[k].data.type_id as int],
+        None => !edges.contains_key(id) || k < 0 || (k < edges[id].versions@.len() && (edges[id].versions@[k].data.deleted() || edges[id].versions@[k].data.type_id >= types.len())),
+    }
+}
 pub struct LpgStore {
     pub nodes: HashMap<NodeId, VersionChain<NodeRecord>>,
     pub edges: HashMap<EdgeId, VersionChain<EdgeRecord>>,
+    pub id_to_edge_type: Vec<ArcStr>,
+    pub edge_properties: PropertyStorage,
 }
 pub proof fn axiom_id_keys() ensures obeys_key_model::<NodeId>(), obeys_key_model::<EdgeId>() { admit(); }
 pub assume_specification<'a, K, V, S, A, Q>[ HashMap::<K, V, S, A>::get_mut::<Q> ](m: &'a mut HashMap<K, V, S, A>, k: &Q) -> (r: Option<&'a mut V>)
@@ -271,6 +300,10 @@ impl<T> VersionChain<T> {
 }
 impl LpgStore {
     @@LpgStore::discard_uncommitted_versions@@
+
+    @@LpgStore::get_edge_at_epoch@@
+
+    @@LpgStore::get_edge_versioned@@
 }
 } // verus!
 fn main() {}
@@ -298,7 +331,7 @@ def build(repo):
 
     for n in ('NodeId', 'EdgeId'):
         u.item(ID, 'struct', n).D1(keep_derive={'Clone', 'Copy', 'PartialEq', 'Eq', 'Hash'})
-    for w, why in [('external_body NodeRecord', 'E1: record payloads are opaque'), ('external_body EdgeRecord', 'E1'), ('admit axiom_id_keys', 'derived Hash/Eq of the u64 id newtypes are lawful'),
+    for w, why in [('external_body NodeRecord', 'E1: record payloads are opaque'), ('admit axiom_id_keys', 'derived Hash/Eq of the u64 id newtypes are lawful'),
                    ('assume_specification HashMap::get_mut', 'std semantics (as in units TM / RDFSTORE)'),
                    ('external_body map_keys', 'R32/R33: HashMap::keys() lists every key exactly once')]:
         u.trust(w, why)
@@ -424,6 +457,21 @@ def build(repo):
     f.ensures('node_versions_rolled_back', 'rolled_back(old(self).nodes@, final(self).nodes@, tx_id)', ['C02'])
     f.ensures('edge_versions_rolled_back', 'rolled_back(old(self).edges@, final(self).edges@, tx_id)', ['C02'])
     f.body_start('proof { axiom_id_keys(); }\nlet ghost N0 = self.nodes@; let ghost E0 = self.edges@;')
+    for w, why in [('external_body EdgeRest', 'E1: flags / property arena fields of EdgeRecord'), ('external_body EdgeRecord::is_deleted', 'E1: the flag test (EdgeFlags::contains) as an uninterpreted predicate of the record'),
+                   ('external_body ArcStr', 'E1: interned string'), ('external_body ArcStr::clone', 'std: clone returns an equal value'), ('external_body PropertyStorage', 'E1'), ('external_body PropertyMap', 'E1'),
+                   ('external_body collect_props', 'E1: `self.edge_properties.get_all(id).into_iter().collect()` - the (single-version) property side table, not constrained'),
+                   ('external_body Edge::new', 'E1: plain constructor')]:
+        u.trust(w, why)
+    for name, spec, k in (('get_edge_at_epoch', 'first_at(infos(self.edges@[id].versions@), epoch)', 'epoch'), ('get_edge_versioned', 'first_vis(infos(self.edges@[id].versions@), epoch, tx_id)', 'epoch, tx_id')):
+        g = u.method(ST, 'LpgStore', name).D1().ret('r').props('C01')
+        g.resub('E3', r'[ \t]*let edges = self\.edges\.read\(\);\n', '')
+        g.resub('E3', r'(?<![\.\w])edges\.get\(', 'self.edges.get(')
+        g.resub('E3', r'[ \t]*let id_to_type = self\.id_to_edge_type\.read\(\);\n', '')
+        g.resub('E3', r'(?<![\.\w])id_to_type\.get\(', 'self.id_to_edge_type.get(')
+        g.resub('E1', r'self\.edge_properties\.get_all\(id\)\.into_iter\(\)\.collect\(\)', 'collect_props(&self.edge_properties, id)')
+        g.ensures('shows_exactly_what_the_reader_may_see', 'edge_seen(self.edges@, self.id_to_edge_type@, id, if self.edges@.contains_key(id) { %s } else { -1 }, r)' % spec)
+        g.body_start('proof { axiom_id_keys(); }')
+        g.before('if record.is_deleted()', 'proof { %s; assert(*chain == self.edges@[id]); }' % ('lemma_first_at_char(infos(chain.versions@), epoch)' if name == 'get_edge_at_epoch' else 'lemma_first_vis_char(infos(chain.versions@), epoch, tx_id)'))
     def loops(base, keys, rkeys, M, M0, T, KT, i, j):
         L = f.loop('in 0..%s.len()' % keys).kind('for').props('C02')
         L.invariants(('keys', 'obeys_key_model::<%s>() && %s@.no_duplicates() && (forall|k: %s| #[trigger] %s@.contains(k) <==> %s.contains_key(k))' % (KT, keys, KT, keys, M0)),
